@@ -58,8 +58,22 @@ inductive AtomicKind where
   | load | store | fetchAdd | cas | casWeak | swap | other
   deriving DecidableEq, Repr, Inhabited
 
+/-- What an atomic operation is for, decided by the extractor from (file, function, receiver, kind). -/
+inductive AtomicRole where
+  | headLoad        -- `self.head.load` in `push_front` / `drop`: the value is only stored or used under `&mut`
+  | headCas         -- the compare-exchange that publishes a new block at the head of the list
+  | walkLoad        -- `self.current.load` in the iterator: the loaded pointer is dereferenced
+  | nextLoad        -- `(*p).next.load` under `&mut self` (drop)
+  | lenLoad         -- `length.load` in `try_inc_length`
+  | lenCas          -- the compare-exchange that reserves `[len, len+n)` of a block
+  | counter         -- usage / limit / block capacity / key counter: values only, nothing is published through them
+  | audit           -- inside a `verif_*` hook
+  | unknown         -- anything else: not covered by the model
+  deriving DecidableEq, Repr, Inhabited
+
 /-- One atomic operation as written in the source. -/
 structure AtomicOp where
+  role : AtomicRole
   file : String
   func : String                -- enclosing fn
   loc : String                 -- receiver expression, normalised (e.g. `self.head`, `length`)
